@@ -451,6 +451,13 @@ func (c *Cluster) findNears(ref *instance) {
 			cid[m.pubHex] = i
 		}
 	}
+	for _, e := range c.dag.order {
+		if _, ok := cid[e.Creator]; !ok {
+			// an event of somebody the harness does not know as an identity
+			c.refDag, c.refFame, c.synthNears = nil, nil, nil
+			return
+		}
+	}
 	d := newRefDag(len(cid))
 	d.deep = true
 	if len(c.genesisSet) < len(cid) {
@@ -483,13 +490,23 @@ func (c *Cluster) findNears(ref *instance) {
 		}
 	}
 	ids := map[string]int{}
-	for _, e := range c.dag.order {
+	for _, e := range c.dag.topoOrder() {
 		sp, op := -1, -1
 		if e.SelfP != "" {
-			sp = ids[e.SelfP]
+			v, ok := ids[e.SelfP]
+			if !ok {
+				c.refDag, c.refFame, c.synthNears = nil, nil, nil
+				return
+			}
+			sp = v
 		}
 		if e.OtherP != "" {
-			op = ids[e.OtherP]
+			v, ok := ids[e.OtherP]
+			if !ok {
+				c.refDag, c.refFame, c.synthNears = nil, nil, nil
+				return
+			}
+			op = v
 		}
 		ids[e.Hash] = d.add(cid[e.Creator], sp, op, e.Hash)
 	}
